@@ -794,7 +794,9 @@ class Driver:
             return
         ridx = st["r"]
         stub = self.world.add_region(ridx)
-        spec.session.register_region(stub.addr, handle=stub.handle,
+        if st.get("no_handle"):
+            self.res.probe("region_registered_without_handle")
+        spec.session.register_region(stub.addr, handle=None if st.get("no_handle") else stub.handle,
                                      seed_url=f"https://sim{ridx}.example.invalid:12043/cap/seed-{spec.idx}-x{ridx}")
         if stub.addr not in spec.region_addrs:
             spec.region_addrs.append(stub.addr)
